@@ -467,11 +467,26 @@ def ops(draw):
   return ['read', mi]
 
 
+# values that sit in a marginal band, pass plainly, fail, or make a numeric validator raise: overrides between these
+# classes are where stale state (marginal flag, outcome, cached value) would show
+BURST_VALUES = [9.5, 9, 10, 0.5, 1, 0, 5, 11, -1, 95, 105, 100, 'abc', '5', None, float('nan'), True]
+
+
+@st.composite
+def burst(draw):
+  """2-4 consecutive assignments to the same scalar measurement."""
+  mi = draw(st.integers(0, 2))
+  return [['set', mi, enc(v)] for v in draw(st.lists(st.sampled_from(BURST_VALUES), min_size=2, max_size=4))]
+
+
 @st.composite
 def cases(draw):
+  n = draw(st.integers(1, 25))
+  chunks = draw(st.lists(st.one_of(ops().map(lambda o: [o]), ops().map(lambda o: [o]), burst()), min_size=1, max_size=n))
+  flat = [o for c in chunks for o in c][:25]
   return {'meas': draw(st.lists(decl(), min_size=1, max_size=3)),
           'diag': sorted(draw(st.sets(st.integers(0, 3), max_size=3))),
-          'ops': draw(st.integers(1, 25).flatmap(lambda n: st.lists(ops(), min_size=n, max_size=n))),
+          'ops': flat,
           'allow_unset': draw(st.booleans())}
 
 
